@@ -21,7 +21,7 @@ class Check(core.CheckBase):
             'encoded by the reference encoder and parsed by the library; distinct = SHA-1 of the wire bytes; non-trivial = '
             'the library accepted the bytes so that the fingerprint functions ran')
     SHARDS = {'quick': 8, 'thorough': 16}
-    BLOCKS = {'quick': 120, 'thorough': 2400}
+    BLOCKS = {'quick': 120, 'thorough': 9600}
     PER_BLOCK = 30
     ASSUMPTIONS = ('HASSH = md5 of kex;encryption;mac;compression name-lists (client: client-to-server lists, server: '
                    'server-to-client lists) exactly as on the wire', 'fingerprints are digests of the RFC 4253 public key blob')
